@@ -31,6 +31,8 @@ package genql
 //@   safety[C05] at rs[offset:]
 //@   ensures no-partial-result[C19]: err != nil ==> result == nil
 //@   loop 0 ascending-range rows[C20,C01,C02]: query.from
+//@   at-call append@loop0 assert kept-row[C01]: typeis(rangevalue, Map) ==> appended == rangevalue && called(ExecWhere) && callresult(ExecWhere, 1) == nil && callresult(ExecWhere, 0)
+//@   at-call append@loop0 assert nested-result[C08,C01]: typeis(rangevalue, []any) ==> called(exec) && appended == callresult(exec, 0)
 //@   ensures window.len[C05]: err == nil && !old(query.dual) ==> called(ExecOrderBy) && typeis(result, []any) &&
 //@     | len(result.([]any)) == min(ite(old(query.limitDefinition) == -1, len(callresult(ExecOrderBy, 0)), old(query.limitDefinition)),
 //@     |     len(callresult(ExecOrderBy, 0)) - min(ite(old(query.offsetDefinition) == -1, 0, old(query.offsetDefinition)), len(callresult(ExecOrderBy, 0))))
@@ -387,3 +389,112 @@ package genql
 //@   safety[C17] at str[i]
 //@   loop 0 invariant idx[C17]: 0 <= i && i <= len(str) + 1
 //@   loop 0 decreases [C17,C10]: len(str) + 1 - i
+
+// ---------------------------------------------------------------------------
+// expression evaluation (C01, C02). Operand values are named through the calls that produce them:
+// callresult(ValueOf, 0, k) is the value of the k-th operand as the function evaluated it.
+
+//@ func ValueOf
+//@   nullable query
+//@   ensures literal[C02,C01,C12]: typeis(any, NeutalString) ==> err == nil && result == any(string(any.(NeutalString)))
+//@   ensures number[C02,C01,C12]: typeis(any, *float64) && any.(*float64) != nil ==> err == nil && result == any(*any.(*float64))
+//@   ensures null-number[C02,C12]: typeis(any, *float64) && any.(*float64) == nil ==> err == nil && result == nil
+//@   ensures column[C02,C01]: typeis(any, ColumnName) && err == nil ==> result == spec.Read(any(current), string(any.(ColumnName)))
+//@   ensures other[C02,C12]: !typeis(any, NeutalString) && !typeis(any, *float64) && !typeis(any, ColumnName) ==> err == nil && result == any
+//@   ensures unwrapped[C12]: err == nil && !typeis(any, ColumnName) ==> !typeis(result, ColumnName) && !typeis(result, NeutalString) && !typeis(result, *float64)
+
+//@ func AndExpr
+//@   ensures and[C01]: err == nil && spec.JSONValue(callresult(ValueOf, 0, 1)) && spec.JSONValue(callresult(ValueOf, 0, 2)) ==> typeis(callresult(ValueOf, 0, 1), bool) && typeis(callresult(ValueOf, 0, 2), bool) &&
+//@     | result == (callresult(ValueOf, 0, 1).(bool) && callresult(ValueOf, 0, 2).(bool))
+
+//@ func OrExpr
+//@   ensures or[C01]: err == nil && spec.JSONValue(callresult(ValueOf, 0, 1)) && spec.JSONValue(callresult(ValueOf, 0, 2)) ==> typeis(callresult(ValueOf, 0, 1), bool) && typeis(callresult(ValueOf, 0, 2), bool) &&
+//@     | result == (callresult(ValueOf, 0, 1).(bool) || callresult(ValueOf, 0, 2).(bool))
+
+//@ func NotExpr
+//@   ensures not[C01]: err == nil && spec.JSONValue(callresult(ValueOf, 0)) ==> typeis(callresult(ValueOf, 0), bool) && result == !callresult(ValueOf, 0).(bool)
+
+//@ func IsExpr
+//@   ensures null[C01]: expr.Right == sqlparser.IsNullOp && err == nil ==> result == (callresult(ValueOf, 0) == nil)
+//@   ensures not-null[C01]: expr.Right == sqlparser.IsNotNullOp && err == nil ==> result == (callresult(ValueOf, 0) != nil)
+//@   ensures true[C01]: (expr.Right == sqlparser.IsTrueOp || expr.Right == sqlparser.IsNotFalseOp) && err == nil ==> typeis(callresult(ValueOf, 0), bool) && result == callresult(ValueOf, 0).(bool)
+//@   ensures false[C01]: (expr.Right == sqlparser.IsFalseOp || expr.Right == sqlparser.IsNotTrueOp) && err == nil ==> typeis(callresult(ValueOf, 0), bool) && result == !callresult(ValueOf, 0).(bool)
+
+//@ func ExecWhere
+//@   ensures no-where[C01]: query.whereDefinition == nil ==> result && err == nil
+//@   ensures where[C01]: query.whereDefinition != nil && err == nil ==> typeis(callresult(Expr, 0), bool) && result == callresult(Expr, 0).(bool)
+
+//@ func SelectObject
+//@   ensures present[C02,C09]: has(data, key) ==> result == data[key]
+//@   ensures missing[C02,C09]: !has(data, key) ==> result == nil
+//@   modifies nothing
+
+//@ func ComparisonExpr
+//@   ensures eq[C01]: err == nil && expr.Operator == sqlparser.EqualOp && spec.ordered(callresult(ValueOf, 0, 1)) && spec.ordered(callresult(ValueOf, 0, 2)) ==>
+//@     | result == (spec.Cmp(callresult(ValueOf, 0, 1), callresult(ValueOf, 0, 2)) == 0)
+//@   ensures ne[C01]: err == nil && expr.Operator == sqlparser.NotEqualOp && spec.ordered(callresult(ValueOf, 0, 1)) && spec.ordered(callresult(ValueOf, 0, 2)) ==>
+//@     | result == (spec.Cmp(callresult(ValueOf, 0, 1), callresult(ValueOf, 0, 2)) != 0)
+//@   ensures lt[C01]: err == nil && expr.Operator == sqlparser.LessThanOp && spec.ordered(callresult(ValueOf, 0, 1)) && spec.ordered(callresult(ValueOf, 0, 2)) ==>
+//@     | result == (spec.Cmp(callresult(ValueOf, 0, 1), callresult(ValueOf, 0, 2)) < 0)
+//@   ensures le[C01]: err == nil && expr.Operator == sqlparser.LessEqualOp && spec.ordered(callresult(ValueOf, 0, 1)) && spec.ordered(callresult(ValueOf, 0, 2)) ==>
+//@     | result == (spec.Cmp(callresult(ValueOf, 0, 1), callresult(ValueOf, 0, 2)) <= 0)
+//@   ensures gt[C01]: err == nil && expr.Operator == sqlparser.GreaterThanOp && spec.ordered(callresult(ValueOf, 0, 1)) && spec.ordered(callresult(ValueOf, 0, 2)) ==>
+//@     | result == (spec.Cmp(callresult(ValueOf, 0, 1), callresult(ValueOf, 0, 2)) > 0)
+//@   ensures ge[C01]: err == nil && expr.Operator == sqlparser.GreaterEqualOp && spec.ordered(callresult(ValueOf, 0, 1)) && spec.ordered(callresult(ValueOf, 0, 2)) ==>
+//@     | result == (spec.Cmp(callresult(ValueOf, 0, 1), callresult(ValueOf, 0, 2)) >= 0)
+//@   ensures eq[C01]: err == nil && expr.Operator == sqlparser.EqualOp && spec.ordered(callresult(ValueOf, 0, 1)) && spec.ordered(callresult(ValueOf, 0, 2)) ==>
+//@     | result == (spec.Cmp(callresult(ValueOf, 0, 1), callresult(ValueOf, 0, 2)) == 0)
+//@   ensures ne[C01]: err == nil && expr.Operator == sqlparser.NotEqualOp && spec.ordered(callresult(ValueOf, 0, 1)) && spec.ordered(callresult(ValueOf, 0, 2)) ==>
+//@     | result == (spec.Cmp(callresult(ValueOf, 0, 1), callresult(ValueOf, 0, 2)) != 0)
+//@   ensures lt[C01]: err == nil && expr.Operator == sqlparser.LessThanOp && spec.ordered(callresult(ValueOf, 0, 1)) && spec.ordered(callresult(ValueOf, 0, 2)) ==>
+//@     | result == (spec.Cmp(callresult(ValueOf, 0, 1), callresult(ValueOf, 0, 2)) < 0)
+//@   ensures le[C01]: err == nil && expr.Operator == sqlparser.LessEqualOp && spec.ordered(callresult(ValueOf, 0, 1)) && spec.ordered(callresult(ValueOf, 0, 2)) ==>
+//@     | result == (spec.Cmp(callresult(ValueOf, 0, 1), callresult(ValueOf, 0, 2)) <= 0)
+//@   ensures gt[C01]: err == nil && expr.Operator == sqlparser.GreaterThanOp && spec.ordered(callresult(ValueOf, 0, 1)) && spec.ordered(callresult(ValueOf, 0, 2)) ==>
+//@     | result == (spec.Cmp(callresult(ValueOf, 0, 1), callresult(ValueOf, 0, 2)) > 0)
+//@   ensures ge[C01]: err == nil && expr.Operator == sqlparser.GreaterEqualOp && spec.ordered(callresult(ValueOf, 0, 1)) && spec.ordered(callresult(ValueOf, 0, 2)) ==>
+//@     | result == (spec.Cmp(callresult(ValueOf, 0, 1), callresult(ValueOf, 0, 2)) >= 0)
+//@   loop 0 invariant not-found[C01]: spec.ordered(callresult(ValueOf, 0, 1)) && spec.PlainList(elems(rightArray), off(rightArray), len(rightArray)) ==>
+//@     | !spec.Member(callresult(ValueOf, 0, 1), elems(rightArray), off(rightArray), rangeindex + 1)
+//@   loop 2 invariant not-found[C01]: spec.ordered(callresult(ValueOf, 0, 1)) && spec.PlainList(elems(rightArray), off(rightArray), len(rightArray)) ==>
+//@     | !spec.Member(callresult(ValueOf, 0, 1), elems(rightArray), off(rightArray), rangeindex + 1)
+//@   ensures in.absent[C01]: err == nil && expr.Operator == sqlparser.InOp && !result && typeis(callresult(Expr, 0, 2), []any) && spec.ordered(callresult(ValueOf, 0, 1)) &&
+//@     | spec.PlainList(elems(callresult(Expr, 0, 2).([]any)), off(callresult(Expr, 0, 2).([]any)), len(callresult(Expr, 0, 2).([]any))) ==>
+//@     | !spec.Member(callresult(ValueOf, 0, 1), elems(callresult(Expr, 0, 2).([]any)), off(callresult(Expr, 0, 2).([]any)), len(callresult(Expr, 0, 2).([]any)))
+//@   ensures notin.absent[C01]: err == nil && expr.Operator == sqlparser.NotInOp && result && typeis(callresult(Expr, 0, 2), []any) && spec.ordered(callresult(ValueOf, 0, 1)) &&
+//@     | spec.PlainList(elems(callresult(Expr, 0, 2).([]any)), off(callresult(Expr, 0, 2).([]any)), len(callresult(Expr, 0, 2).([]any))) ==>
+//@     | !spec.Member(callresult(ValueOf, 0, 1), elems(callresult(Expr, 0, 2).([]any)), off(callresult(Expr, 0, 2).([]any)), len(callresult(Expr, 0, 2).([]any)))
+
+//@ func BetweenExpr
+//@   ensures inclusive[C01]: err == nil && spec.ordered(callresult(ValueOf, 0, 1)) && spec.ordered(callresult(ValueOf, 0, 2)) && spec.ordered(callresult(ValueOf, 0, 3)) ==>
+//@     | result == (expr.IsBetween == (spec.Cmp(callresult(ValueOf, 0, 1), callresult(ValueOf, 0, 2)) >= 0 && spec.Cmp(callresult(ValueOf, 0, 1), callresult(ValueOf, 0, 3)) <= 0))
+
+//@ func BinaryExpr
+//@   split-returns
+//@   ensures null[C02]: called(ValueOf) && callresult(ValueOf, 1, 1) == nil && callresult(ValueOf, 0, 1) == nil ==> result == nil && err == nil
+//@   ensures plus[C02]: err == nil && result != nil && expr.Operator == sqlparser.PlusOp ==> typeis(callresult(ValueOf, 0, 1), float64) && typeis(callresult(ValueOf, 0, 2), float64) ==>
+//@     | *result == callresult(ValueOf, 0, 1).(float64) + callresult(ValueOf, 0, 2).(float64)
+//@   ensures minus[C02]: err == nil && result != nil && expr.Operator == sqlparser.MinusOp ==> typeis(callresult(ValueOf, 0, 1), float64) && typeis(callresult(ValueOf, 0, 2), float64) ==>
+//@     | *result == callresult(ValueOf, 0, 1).(float64) - callresult(ValueOf, 0, 2).(float64)
+//@   ensures mult[C02]: err == nil && result != nil && expr.Operator == sqlparser.MultOp ==> typeis(callresult(ValueOf, 0, 1), float64) && typeis(callresult(ValueOf, 0, 2), float64) ==>
+//@     | *result == callresult(ValueOf, 0, 1).(float64) * callresult(ValueOf, 0, 2).(float64)
+//@   ensures div[C02]: err == nil && result != nil && expr.Operator == sqlparser.DivOp ==> typeis(callresult(ValueOf, 0, 1), float64) && typeis(callresult(ValueOf, 0, 2), float64) ==>
+//@     | *result == callresult(ValueOf, 0, 1).(float64) / callresult(ValueOf, 0, 2).(float64)
+//@   ensures mod[C02]: err == nil && result != nil && expr.Operator == sqlparser.ModOp ==> typeis(callresult(ValueOf, 0, 1), float64) && typeis(callresult(ValueOf, 0, 2), float64) ==>
+//@     | *result == spec.fmod(callresult(ValueOf, 0, 1).(float64), callresult(ValueOf, 0, 2).(float64))
+//@   ensures bitand[C02]: err == nil && result != nil && expr.Operator == sqlparser.BitAndOp ==> typeis(callresult(ValueOf, 0, 1), float64) && typeis(callresult(ValueOf, 0, 2), float64) ==>
+//@     | *result == float64(int64(callresult(ValueOf, 0, 1).(float64)) & int64(callresult(ValueOf, 0, 2).(float64)))
+//@   ensures bitor[C02]: err == nil && result != nil && expr.Operator == sqlparser.BitOrOp ==> typeis(callresult(ValueOf, 0, 1), float64) && typeis(callresult(ValueOf, 0, 2), float64) ==>
+//@     | *result == float64(int64(callresult(ValueOf, 0, 1).(float64)) | int64(callresult(ValueOf, 0, 2).(float64)))
+//@   ensures bitxor[C02]: err == nil && result != nil && expr.Operator == sqlparser.BitXorOp ==> typeis(callresult(ValueOf, 0, 1), float64) && typeis(callresult(ValueOf, 0, 2), float64) ==>
+//@     | *result == float64(int64(callresult(ValueOf, 0, 1).(float64)) ^ int64(callresult(ValueOf, 0, 2).(float64)))
+//@   ensures shl[C02]: err == nil && result != nil && expr.Operator == sqlparser.ShiftLeftOp ==> typeis(callresult(ValueOf, 0, 1), float64) && typeis(callresult(ValueOf, 0, 2), float64) ==>
+//@     | *result == float64(int64(callresult(ValueOf, 0, 1).(float64)) << int64(callresult(ValueOf, 0, 2).(float64)))
+//@   ensures shr[C02]: err == nil && result != nil && expr.Operator == sqlparser.ShiftRightOp ==> typeis(callresult(ValueOf, 0, 1), float64) && typeis(callresult(ValueOf, 0, 2), float64) ==>
+//@     | *result == float64(int64(callresult(ValueOf, 0, 1).(float64)) >> int64(callresult(ValueOf, 0, 2).(float64)))
+//@   ensures fresh[C02,C11]: result != nil ==> fresh(result)
+
+//@ func UnaryExpr
+//@   ensures minus[C02]: err == nil && expr.Operator == sqlparser.UMinusOp && typeis(callresult(ValueOf, 0), float64) ==> typeis(result, *float64) && *result.(*float64) == -callresult(ValueOf, 0).(float64)
+//@   ensures tilda[C02]: err == nil && expr.Operator == sqlparser.TildaOp && typeis(callresult(ValueOf, 0), float64) ==> typeis(result, *float64) && *result.(*float64) == float64(^int64(callresult(ValueOf, 0).(float64)))
+//@   ensures bang[C02]: err == nil && expr.Operator == sqlparser.BangOp && typeis(callresult(ValueOf, 0), bool) ==> result == any(!callresult(ValueOf, 0).(bool))
